@@ -37,6 +37,7 @@ func Harness_E_C07() {
 	a := Layout(in.src, in.opts...)
 	b := Layout(in.src, in.opts...)
 	vhReach("returned")
+	vhObserveLayout(a)
 	vhSameLayout(a, b, "repeat")
 	vhAssert(len(in.src) == len(src0), "input-edge-list-unmodified")
 	for i := range src0 {
@@ -100,6 +101,7 @@ func Harness_E_C09() {
 	comp := vhComp(in)
 	whole := Layout(in.src, in.opts...)
 	vhReach("returned")
+	vhObserveLayout(whole)
 	ncomp := 0
 	for c := 0; c < in.n; c++ {
 		if comp[c] != c {
@@ -197,6 +199,7 @@ func Harness_E_C10() {
 	vhOptions(in, 1)
 	l := Layout(in.src, in.opts...)
 	vhReach("returned")
+	vhObserveLayout(l)
 	comp := vhComp(in)
 	band := make([]int, in.n)
 	alt := make([]int, in.n)
@@ -256,6 +259,7 @@ func Harness_E_C11() {
 	vhOptions(in, 1)
 	l := Layout(in.src, in.opts...)
 	vhReach("returned")
+	vhObserveLayout(l)
 	comp := vhComp(in)
 	band := make([]int, in.n)
 	for i := 0; i < in.n; i++ {
@@ -354,6 +358,7 @@ func Harness_E_C12() {
 	opts := append(in.opts, WithMonitor(rec))
 	l := Layout(in.src, opts...)
 	vhReach("returned")
+	vhObserveLayout(l)
 	reported, nrep := 0, 0
 	for _, ev := range rec.events {
 		if ev.phase == 3 && ev.key == "crossings" {
@@ -377,6 +382,7 @@ func Harness_E_C13() {
 	vhOptions(in, 1)
 	l := Layout(in.src, in.opts...)
 	vhReach("returned")
+	vhObserveLayout(l)
 	drawn, ok := vhCrossings(in, l)
 	vhAssert(ok, "route-points-lie-on-consecutive-bands")
 	vhAssert(drawn == 0, "tree-drawn-without-crossings")
@@ -389,6 +395,7 @@ func Harness_E_C16() {
 	vhOptions(in, 1)
 	l := Layout(in.src, in.opts...)
 	vhReach("returned")
+	vhObserveLayout(l)
 	gmin := 1e18
 	for _, n := range l.Nodes {
 		gmin = min(gmin, n.X)
